@@ -236,3 +236,70 @@ TRUSTED = TRUSTED + [
     "translator tie: harness/translate_dt.py (DtPy) re-translates tzfile._find_last_transition/_get_ttinfo/_find_ttinfo/_resolve_ambiguous_time/_offset_before/is_ambiguous/fromutc/utcoffset/dst/tzname, _datetime_to_timestamp and tzrangebase._dst_base_offset/_naive_isdst/is_ambiguous/_isdst/utcoffset/dst/tzname/fromutc from /repo on every run into Generated/TzKernels.lean; Proofs/TzGenEq*.lean prove each equal to the function of Model/Zones.lean (for datetimes with microseconds; tzfile: on every coherent zone, i.e. build of a WF table with a transition), Properties/TzGen.lean lists the obligations gen_eq_model_* and the `_gen` twins in the audit; a behaviour-changing edit breaks the translation or a named obligation",
     "named primitives of the DtPy translator (Model/DtPy.lean), trusted with their documented meaning and exercised by the tzgen.* validation against the implementation's methods on every run: a datetime as (microseconds of the naive reading, fold, tzinfo-is-self), datetime +/- timedelta resets fold, timedelta.total_seconds() as an exact number (float rounding not modelled), int() truncation, bisect.bisect_right as its loop, list indexing with IndexError, attribute of None as AttributeError, unpacking None as TypeError, OverflowError of datetime arithmetic not modelled, `dt is None` tests on datetime parameters statically false; in the `_tzinfo` base-class functions `dt.utcoffset()`/`dt.dst()` are the zone's abstract offset functions applied to (wall seconds, fold) and `self.is_ambiguous(dt)` is dynamic dispatch (DtPy.dispatchAmbiguous: a subclass override if the GenericZone has one, else the translated base method)",
 ]
+
+
+# --- translator tie for the READER (wt-tzfile): `tzfile._read_tzfile` itself is re-translated from tz/tz.py on every run
+# (harness/translate_tzif.py -> Generated/TzifKernels.lean, `Gen.readTzfile`) and run by the driver op `tzif.read` on every
+# stream of the correspondence (real, right/, synthetic, random, malformed) against the implementation's reader
+_correspondence_without_tzif = correspondence
+
+
+def tzif_expected(data):
+    import datetime
+    z, line = Z.impl_load(data)
+    if z is not None:
+        ok = all(t.delta == datetime.timedelta(seconds=t.offset) for t in z._ttinfo_list)
+        line += " delta=%d first=%s" % (ok, Z.tt_opt(getattr(z, "_ttinfo_first", None)))
+    return line
+
+
+def correspondence(ctx):
+    _correspondence_without_tzif(ctx)
+    real, syn = zones_for(ctx)
+    streams = [(n, d) for n, d, _ in real + syn] + [("mal:" + k, v) for k, v in Z.malformed_streams().items()]
+    right = Z.system_zones(right=True)
+    streams += [("right/" + n, d) for n, _, d in (right if ctx.tier == "thorough" else right[::45])]
+    reqs = ["tzif.read " + Z.hexs(d) for _, d in streams]
+    got = ctx.driver(reqs)
+    for (name, data), g in zip(streams, got):
+        ctx.traces += 1
+        e = tzif_expected(data)
+        ctx.count("tzif.read_ok" if e.startswith("ok ") else "tzif.read_" + e.split()[-1])
+        if e != g:
+            ctx.mismatch("tzif.read", {"zone": name, "stream": Z.hexs(data) if len(data) < 4000 else None}, e[:400], g[:400])
+
+
+TRUSTED = TRUSTED + [
+    "translator tie for the reader: harness/translate_tzif.py (TzifPy) re-translates tzfile._read_tzfile from /repo on every run into Generated/TzifKernels.lean (Gen.readTzfile and one definition per `for` statement); the driver op tzif.read runs it on every stream of the correspondence against the implementation; Properties/TzifGen.lean lists the obligations gen_eq_model_read_tzfile* that prove it equal to Model/TZif.lean's decode/build",
+    "named primitives of the TzifPy translator (Model/TzifPy.lean), trusted with their documented meaning and exercised by tzif.read on every run: a BytesIO-like stream (short reads, relative seek clamped at 0), struct.unpack for the formats >Nl >NB >Nb >lbB with struct.error as one kind, bytes.decode() on ASCII, the compound `s[i:s.find('\\x00', i)]` as one primitive (TZ.abbrAt), `_ttinfo` objects as references into a heap in allocation order (aliasing through trans_idx / ttinfo_list / ttinfo_std/dst/before is explicit), `_get_supported_offset` as the identity (its definition for Python >= 3.6 is checked to be `return second_offset`), timedelta as whole seconds, a name bound on one path only defaults to the empty list (UnboundLocalError not modelled)",
+]
+
+
+# --- HISTORY of the process and shared state (wt-tzfile): a file rewritten under the same path / name must be reported as it
+# is NOW by every load kind (harness/props/c06_history.py: 14 load kinds x overwrite/replace x same/later mtime), and the TZif
+# classes must hold no class- or module-level mutable state (AST audit against an allow-list of the sites of the unchanged tree)
+_oracle_without_history = oracle
+_replay_without_history = replay
+
+
+def oracle(ctx):
+    _oracle_without_history(ctx)
+    from props import c06_history as HIST
+    HIST.history(ctx)
+    HIST.shared_state_audit(ctx)
+
+
+def replay(ctx, payload):
+    c = payload["violation"]["case"]
+    if isinstance(c, dict) and ("kind" in c or "site" in c):
+        from props import c06_history as HIST
+        return HIST.replay_history(c)
+    return _replay_without_history(ctx, payload)
+
+
+ASSUMPTIONS = ASSUMPTIONS + [
+    "by design and not asserted by the history stream: gettz(name) / gettz(path) return the cached object while the key is in gettz's strong LRU cache or the earlier object is still alive in the weak instance map (C18); zoneinfo.get_zonefile_instance() keeps one ZoneInfoFile per process; unpickled and copied zones carry their decoded state (asserted to report the ORIGINAL object's data)",
+]
+RULE = RULE + ("; history stream: sequences of 2-3 different well-formed TZif byte strings (same length / same instants with different offsets, abbreviations, "
+               "isdst, type indices, flags; real pairs; random tables) written to the SAME path or name, rewritten in place or by os.replace with the mtime restored or advanced, "
+               "loaded through 14 load kinds; a case = (sequence, load kind, step); audit: one case per audited site (not counted as non-trivial)")
